@@ -18,6 +18,14 @@ import (
 // (kind rank, ref, version) itself; the library's packing is only ever observed through its
 // public constructors, accessors, String and Parse* functions and the three Sort helpers.
 
+// user types embedding library elements (valid osm.Element implementations)
+type c10MyNode struct {
+	*osm.Node
+	Note string
+}
+type c10MyWay struct{ *osm.Way }
+type c10MyRelation struct{ *osm.Relation }
+
 var c10Kinds = []osm.Type{osm.TypeBounds, osm.TypeNode, osm.TypeWay, osm.TypeRelation, osm.TypeChangeset, osm.TypeNote, osm.TypeUser}
 
 func c10Rank(t osm.Type) int {
@@ -288,11 +296,34 @@ func c10Exec(c fw.Case) *fw.Result {
 	case "pack":
 		kind := c10Kinds[c.Int("kind")]
 		n := 0
+		// the texts of many ids are also kept alive together (a list, map keys) and parsed
+		// back only at the end: a text belongs to its id for good
+		type kept struct {
+			oid  osm.ObjectID
+			text string
+		}
+		var texts []kept
 		for _, ref := range refs {
 			for _, v := range vers {
 				c10CheckTriple(res, c10Triple{kind, ref, v})
+				if len(texts) < 4000 {
+					oid := c10ObjectID(c10Triple{kind, ref, v})
+					texts = append(texts, kept{oid, oid.String()})
+				}
 				n++
 			}
+		}
+		seenText := map[string]osm.ObjectID{}
+		for _, k := range texts {
+			if p, err := osm.ParseObjectID(k.text); err != nil || p != k.oid {
+				res.Violatef("C10/"+string(kind)+"/kept-text", "the text %q obtained from ObjectID %d earlier now parses to %d, %v", k.text, k.oid, p, err)
+				break
+			}
+			if o, dup := seenText[k.text]; dup && o != k.oid {
+				res.Violatef("C10/"+string(kind)+"/kept-text-distinct", "distinct ids %d and %d have the same kept text %q", o, k.oid, k.text)
+				break
+			}
+			seenText[k.text] = k.oid
 		}
 		res.Event(int64(n))
 		res.Sample = map[string]any{"kind": kind, "refs": len(refs), "versions": len(vers), "first_refs": refs[:6], "last_refs": refs[len(refs)-3:]}
@@ -372,6 +403,10 @@ func c10Exec(c fw.Case) *fw.Result {
 			// few refs and versions so that ties on (kind, ref) are frequent
 			ts = append(ts, c10Triple{k, refs[r.Intn(len(refs))], vers[r.Intn(len(vers))]})
 		}
+		// a third of the elements are user types that embed a library element (embedding
+		// promotes the unexported marker method, so they are valid osm.Elements): the sort must
+		// order by what ElementID() says, whatever the dynamic type
+		wrapAt := func(i int) bool { return c.Int("wrap") == 1 && i%3 == 1 }
 		// input arrangement: a sort may shortcut on what its input looks like
 		arr := []string{"random", "sorted", "reversed", "history", "few-swaps", "by-version", "sorted-but-last"}[int(c.Int("arr"))%7]
 		switch arr {
@@ -411,10 +446,19 @@ func c10Exec(c fw.Case) *fw.Result {
 			switch t.kind {
 			case osm.TypeNode:
 				els[i] = &osm.Node{ID: osm.NodeID(t.ref), Version: t.ver}
+				if wrapAt(i) {
+					els[i] = &c10MyNode{Node: els[i].(*osm.Node), Note: "mine"}
+				}
 			case osm.TypeWay:
 				els[i] = &osm.Way{ID: osm.WayID(t.ref), Version: t.ver}
+				if wrapAt(i) {
+					els[i] = &c10MyWay{Way: els[i].(*osm.Way)}
+				}
 			default:
 				els[i] = &osm.Relation{ID: osm.RelationID(t.ref), Version: t.ver}
+				if wrapAt(i) {
+					els[i] = c10MyRelation{Relation: els[i].(*osm.Relation)}
+				}
 			}
 		}
 		// the collection helpers must agree with the per-element ids (before sorting)
@@ -742,7 +786,7 @@ func init() {
 				if i%20 == 13 {
 					n = int64(2048 + (i*37)%3000) // beyond any small-slice special case of a sort
 				}
-				cs = append(cs, fw.Case{Kind: "sort", Seed: gen.Sub(seed, "c10sort", i), P: map[string]int64{"n": n, "nrefs": 3, "nvers": 2, "arr": int64(i / 2)}})
+				cs = append(cs, fw.Case{Kind: "sort", Seed: gen.Sub(seed, "c10sort", i), P: map[string]int64{"n": n, "nrefs": 3, "nvers": 2, "arr": int64(i / 2), "wrap": int64(i % 4 / 3)}})
 			}
 			for i, v := range []string{"plain", "race"} {
 				cs = append(cs, fw.Case{Kind: "sort-concurrent", Variant: v, Seed: gen.Sub(seed, "c10conc", i), P: map[string]int64{"goroutines": 8, "rounds": int64(150 - 100*i)}})
